@@ -332,7 +332,7 @@ struct C20 : Property
 		(void)base;
 		if (!g_alloc.live.empty())
 		{
-			std::string site = g_alloc.site_of(g_alloc.live.begin()->second);
+			std::string site = g_alloc.first_live_site();
 			std::string desc = g_alloc.describe_live();
 			size_t n = g_alloc.live.size();
 			g_alloc.live.clear();
